@@ -260,7 +260,7 @@ struct ThreadEngine: Engine{
       switch(k){
         case 0: o["op"]="vec"; break;
         case 1: o["op"]="matfun"; o["which"]=(int)r.below(5); break;
-        case 2: o["op"]="exp"; o["norm"]=std::pow(10.0,r.uniform(-2,1.5)); break;
+        case 2:{ o["op"]="exp"; static const double tn[]={0.05,0.6,2.0,3.5,4.5,7.0,12.0}; o["norm"]=r.chance(0.7)?tn[r.below(7)]*r.uniform(0.8,1.25):std::pow(10.0,r.uniform(-2,1.5)); break; }
         case 3: o["op"]="utv"; o["norm"]=r.uniform(-3,3); break;
         case 4: case 5: o["op"]="send"; o["msg"]=nextmsg; pending.push_back(std::make_pair(nextmsg,t)); nextmsg++; break;
         case 6: o["op"]="expect"; o["kind"]=(int)r.below(5); o["irho"]=(int)r.below(2); o["x"]=r.uniform(0,1); o["ix"]=(int)r.below(3); break;
